@@ -189,10 +189,11 @@ def run(res):
                     descr.append(('ctl-after-relabel', S, S0, rs, L, L2, sexpr(ft)))
                 # by reference: an edit of the caller's dict after the call shows through labels(s)
                 s0_ = nodes[0]
-                L2obj[s0_].add('late')
-                obs['later_edit_of_the_callers_set_shows_through_labels'] += int('late' in K2.labels(s0_))
-                L2obj[s0_] = set(['swapped'])
-                obs['later_assignment_in_the_callers_dict_shows_through_labels'] += int(K2.labels(s0_) == set(['swapped']))
+                if s0_ in L2obj and hasattr(L2obj[s0_], 'add'):        # observations only: nothing here is a verdict
+                    L2obj[s0_].add('late')
+                    obs['later_edit_of_the_callers_set_shows_through_labels'] += int(attempt(lambda: 'late' in K2.labels(s0_)) is True)
+                    L2obj[s0_] = set(['swapped'])
+                    obs['later_assignment_in_the_callers_dict_shows_through_labels'] += int(attempt(lambda: K2.labels(s0_) == set(['swapped'])) is True)
         subsets = list(itertools.chain.from_iterable(itertools.combinations(nodes + [max(nodes) + 1], k)
                                                      for k in range(len(nodes) + 2)))
         for V in subsets:
